@@ -45,6 +45,7 @@ type Case struct {
 	Idle      int   // seconds (storage backends)
 	FailGet   []int // injected storage faults (vk backend)
 	FailDel   []int
+	SessNoMW  bool `json:",omitempty"` // session backend without the session middleware in the chain (csrf loads and saves the session through the store itself)
 	Ops       []Op
 }
 
@@ -139,7 +140,7 @@ func check(c Case) vk.Verdict {
 		cfg.Extractor = csrf.FromCookie("csrf_")
 	}
 	app := fiber.New()
-	if sessMW != nil {
+	if sessMW != nil && !c.SessNoMW {
 		app.Use(sessMW)
 	}
 	ran := false
@@ -175,6 +176,9 @@ func check(c Case) vk.Verdict {
 		}
 	}
 	v := vk.Verdict{Classes: []string{"backend:" + c.Backend, "extractor:" + c.Extractor}}
+	if c.SessNoMW {
+		v.Classes = append(v.Classes, "session-store-only")
+	}
 	nt := false
 	passedUnsafe := 0
 	for i, op := range c.Ops {
@@ -433,9 +437,12 @@ var referers = []string{"", "", "SCHEME://site.test/page", "https://trusted.test
 	"https://trusted.test:8443/p", "https://a.wild.test:8443/", "SCHEME://site.test:8443/page"}
 
 func genCase(t *rapid.T) Case {
-	c := Case{Backend: rapid.SampledFrom([]string{"vk", "vk", "vk-retain", "memory", "session"}).Draw(t, "backend"),
+	c := Case{Backend: rapid.SampledFrom([]string{"vk", "vk", "vk-retain", "memory", "session", "session"}).Draw(t, "backend"),
 		Extractor: rapid.SampledFrom([]string{"header", "form", "query", "param", "cookie"}).Draw(t, "extractor"),
 		SingleUse: rapid.Bool().Draw(t, "single"), Idle: rapid.SampledFrom([]int{5, 30, 3600}).Draw(t, "idle")}
+	if c.Backend == "session" {
+		c.SessNoMW = rapid.Bool().Draw(t, "sessnomw")
+	}
 	if (c.Backend == "vk" || c.Backend == "vk-retain") && rapid.IntRange(0, 2).Draw(t, "faults") == 0 {
 		c.FailGet = rapid.SliceOfN(rapid.IntRange(1, 15), 0, 2).Draw(t, "failget")
 		c.FailDel = rapid.SliceOfN(rapid.IntRange(1, 4), 0, 1).Draw(t, "faildel")
